@@ -697,8 +697,18 @@ def _desugar_comps(fn, ref_fps, stats):
         for n in _own_walk(fn):
             if isinstance(n, (ast.For, ast.While)) and any(x is stmt for x in ast.walk(n)):
                 in_loop = True
+        scoped = set()      # names inside other comprehensions / lambdas live in scopes of their own
+        for c in _own_walk(fn):
+            if c is not comp and isinstance(c, (ast.ListComp, ast.SetComp, ast.DictComp, ast.GeneratorExp, ast.Lambda)):
+                bound = set()
+                if isinstance(c, ast.Lambda):
+                    bound = {a.arg for a in c.args.args}
+                else:
+                    for g_ in c.generators:
+                        bound |= {x.id for x in ast.walk(g_.target) if isinstance(x, ast.Name)}
+                scoped |= {id(x) for x in ast.walk(c) if isinstance(x, ast.Name) and x.id in bound}
         for n in _own_walk(fn):
-            if isinstance(n, ast.Name) and n.id in names and id(n) not in inside:
+            if isinstance(n, ast.Name) and n.id in names and id(n) not in inside and id(n) not in scoped:
                 if isinstance(n.ctx, ast.Store) and (in_loop or n.lineno < stmt.lineno):
                     return True
                 if isinstance(n.ctx, ast.Load) and not _is_local(fn, n.id):
@@ -709,6 +719,17 @@ def _desugar_comps(fn, ref_fps, stats):
         """-> replacement statement list or None"""
         val, mk_init, mk_leaf, tail = None, None, None, []
         name = None
+        if isinstance(s, ast.Return) and isinstance(s.value, ast.Call) and isinstance(s.value.func, ast.Name) and \
+                s.value.func.id in ("all", "any") and len(s.value.args) == 1 and not s.value.keywords and \
+                isinstance(s.value.args[0], ast.GeneratorExp) and is_new(s.value.args[0]) and \
+                not collides(s.value.args[0], s):
+            # return all(P for ..)  ->  for ..: if not P: return False \n return True   (any: dually)
+            comp = s.value.args[0]
+            is_all = s.value.func.id == "all"
+            test = _push_not(ast.UnaryOp(op=ast.Not(), operand=comp.elt)) if is_all else comp.elt
+            leaf = ast.If(test=test, body=[ast.Return(value=ast.Constant(value=not is_all))], orelse=[])
+            return loops(comp, ast.copy_location(leaf, s), s) + \
+                [ast.copy_location(ast.Return(value=ast.Constant(value=is_all)), s)]
         if isinstance(s, ast.Assign) and len(s.targets) == 1 and isinstance(s.targets[0], ast.Name):
             name, val = s.targets[0].id, s.value
         elif isinstance(s, ast.Return) and s.value is not None:
@@ -749,8 +770,13 @@ def _desugar_comps(fn, ref_fps, stats):
         ref = lambda: ast.Name(id=name, ctx=ast.Load())
         if kind == "list":
             init = ast.List(elts=[], ctx=ast.Load())
-            leaf = ast.Expr(value=ast.Call(func=ast.Attribute(value=ref(), attr="append", ctx=ast.Load()),
-                                           args=[comp.elt], keywords=[]))
+
+            def app(e):
+                if isinstance(e, ast.IfExp):      # [a if c else b for ..]: one append per branch
+                    return ast.If(test=e.test, body=[app(e.body)], orelse=[app(e.orelse)])
+                return ast.Expr(value=ast.Call(func=ast.Attribute(value=ref(), attr="append", ctx=ast.Load()),
+                                               args=[e], keywords=[]))
+            leaf = app(comp.elt)
         elif kind == "set":
             init = ast.Call(func=ast.Name(id="set", ctx=ast.Load()), args=[], keywords=[])
             leaf = ast.Expr(value=ast.Call(func=ast.Attribute(value=ref(), attr="add", ctx=ast.Load()),
@@ -838,107 +864,144 @@ def _inline_locals(fn, q, ref_locals, stats):
         except Exception:
             return
         for nm in sorted(new):
-            defs = [n for n in _own_walk(fn) if isinstance(n, ast.Name) and n.id == nm and isinstance(n.ctx, ast.Store)]
-            if len(defs) != 1:
-                continue
-            d = defs[0]
-            st = getattr(d, "_parent", None)
-            if not (isinstance(st, ast.Assign) and len(st.targets) == 1 and st.targets[0] is d):
-                continue
-            # not used inside nested functions / deleted / augmented
-            nested_use = False
-            for n in ast.walk(fn):
-                if n is not fn and isinstance(n, (ast.FunctionDef, ast.AsyncFunctionDef, ast.Lambda)):
-                    if any(isinstance(x, ast.Name) and x.id == nm for x in ast.walk(n)):
-                        nested_use = True
-            if nested_use:
-                continue
-            uses = [n for n in _own_walk(fn) if isinstance(n, ast.Name) and n.id == nm and isinstance(n.ctx, ast.Load)]
-            if not uses or any(isinstance(n, ast.Name) and n.id == nm and isinstance(n.ctx, ast.Del) for n in _own_walk(fn)):
-                continue
-            E = st.value
-            has_call = any(isinstance(x, ast.Call) for x in ast.walk(E))
-            if not _pure(E, allow_call=len(uses) == 1):
-                continue
-            if nm in _names_used(E):
-                continue
-            try:
-                ok = True
-                for u in uses:
-                    rd = g.defs_reaching(nm, u)
-                    if len(rd) != 1 or g.stmt(rd[0][0]) is not st:
-                        ok = False
-                        break
-                    # names E mentions keep their definitions between the definition and the use
-                    for x in _names_used(E):
-                        a = {dd[0] for dd in g.defs_reaching(x, st)} if _is_local(fn, x) else set()
-                        b = {dd[0] for dd in g.defs_reaching(x, u)} if _is_local(fn, x) else set()
-                        if a != b:
-                            ok = False
-                            break
-                    if not ok:
-                        break
-                if not ok:
-                    continue
-            except Exception:
-                continue
-            # nothing rebinds a path that E reads (a store deeper than the path mutates the same object: fine)
-            paths = {p for p in _paths(E) if "." in p or "[" in p}
-            rebinding = False
-            for n in _own_walk(fn):
-                tgts = []
-                if isinstance(n, ast.Assign):
-                    tgts = n.targets
-                elif isinstance(n, (ast.AugAssign, ast.AnnAssign)):
-                    tgts = [n.target]
-                elif isinstance(n, ast.Delete):
-                    tgts = n.targets
-                elif isinstance(n, (ast.For,)):
-                    tgts = [n.target]
-                for t in tgts:
-                    for x in ast.walk(t) if isinstance(t, (ast.Tuple, ast.List)) else [t]:
-                        if isinstance(x, (ast.Attribute, ast.Subscript)) and ast.unparse(x) in paths:
-                            rebinding = True
-            if rebinding:
-                continue
-            if has_call and len(uses) == 1:
-                # the call moves to the use: nothing with an effect may lie in between - require the same block and
-                # only simple statements between them
-                u_st = uses[0]
-                while u_st is not None and not isinstance(u_st, ast.stmt):
-                    u_st = getattr(u_st, "_parent", None)
-                blk = _block_of(st)
-                if blk is None or u_st is None:
-                    continue
-                top = u_st
-                while top is not None and top not in blk:
-                    top = getattr(top, "_parent", None)
-                if top is None or blk.index(top) < blk.index(st):
-                    continue
-                between = blk[blk.index(st) + 1:blk.index(top)]
-                if any(any(isinstance(x, ast.Call) for x in ast.walk(b)) for b in between):
-                    continue
-            # substitute
-            for u in uses:
-                p = u._parent
-                rep = copy.deepcopy(E)
-                for f_, v in ast.iter_fields(p):
-                    if v is u:
-                        setattr(p, f_, rep)
-                    elif isinstance(v, list):
-                        for i, x in enumerate(v):
-                            if x is u:
-                                v[i] = rep
-                rep._parent = p
+            if _inline_one_local(fn, g, nm, stats):
+                _set_parents(fn)
+                changed = True
+                break
+
+
+def _inline_one_local(fn, g, nm, stats):
+    """replace every read of the new local `nm` by the value of the (single) definition that reaches it"""
+    stores = [n for n in _own_walk(fn) if isinstance(n, ast.Name) and n.id == nm and isinstance(n.ctx, ast.Store)]
+    if not stores:
+        return False
+    defs = []
+    for d in stores:
+        st = getattr(d, "_parent", None)
+        if not (isinstance(st, ast.Assign) and len(st.targets) == 1 and st.targets[0] is d):
+            return False
+        defs.append(st)
+    for n in ast.walk(fn):
+        if n is not fn and isinstance(n, (ast.FunctionDef, ast.AsyncFunctionDef, ast.Lambda)):
+            if any(isinstance(x, ast.Name) and x.id == nm for x in ast.walk(n)):
+                return False
+    if any(isinstance(n, ast.Name) and n.id == nm and isinstance(n.ctx, ast.Del) for n in _own_walk(fn)):
+        return False
+    uses = [n for n in _own_walk(fn) if isinstance(n, ast.Name) and n.id == nm and isinstance(n.ctx, ast.Load)]
+    if not uses:
+        return False
+    for u in uses:
+        p = getattr(u, "_parent", None)
+        # the local is mutated through its name (x.append(..), x[k] = .., x.f = ..) and denotes a container built by its
+        # definition: its definition is not what it holds at the use
+        fresh_container = any(isinstance(d.value, (ast.List, ast.Dict, ast.Set, ast.ListComp, ast.DictComp, ast.SetComp,
+                                                    ast.Call)) for d in defs)
+        if fresh_container and isinstance(p, (ast.Attribute, ast.Subscript)) and p.value is u:
+            gp = getattr(p, "_parent", None)
+            if isinstance(p.ctx, (ast.Store, ast.Del)) or (isinstance(gp, ast.Call) and gp.func is p and
+                                                          p.attr in canon_mutators()):
+                return False
+    by_def = {}
+    try:
+        for u in uses:
+            rd = g.defs_reaching(nm, u)
+            if len(rd) != 1:
+                return False
+            st = g.stmt(rd[0][0])
+            if not any(st is d for d in defs):
+                return False
+            by_def.setdefault(id(st), (st, []))[1].append(u)
+    except Exception:
+        return False
+    # rebinding stores of the function (for the path test)
+    stored_paths = set()
+    for n in _own_walk(fn):
+        tgts = []
+        if isinstance(n, ast.Assign):
+            tgts = n.targets
+        elif isinstance(n, (ast.AugAssign, ast.AnnAssign)):
+            tgts = [n.target]
+        elif isinstance(n, ast.Delete):
+            tgts = n.targets
+        elif isinstance(n, ast.For):
+            tgts = [n.target]
+        for t in tgts:
+            for x in (ast.walk(t) if isinstance(t, (ast.Tuple, ast.List)) else [t]):
+                if isinstance(x, (ast.Attribute, ast.Subscript)):
+                    stored_paths.add(ast.unparse(x))
+    for st, us in by_def.values():
+        E = st.value
+        has_call = any(isinstance(x, ast.Call) for x in ast.walk(E))
+        if not _pure(E, allow_call=len(us) == 1) or nm in _names_used(E):
+            return False
+        try:
+            for u in us:
+                for x in _names_used(E):
+                    if not _is_local(fn, x):
+                        continue
+                    a = {dd[0] for dd in g.defs_reaching(x, st)}
+                    b = {dd[0] for dd in g.defs_reaching(x, u)}
+                    if a != b:
+                        return False
+        except Exception:
+            return False
+        # nothing rebinds a path that E reads (a store deeper than the path mutates the same object: fine)
+        if {p for p in _paths(E) if "." in p or "[" in p} & stored_paths:
+            return False
+        if has_call:
+            # the call moves to its only use: require the same block and nothing with an effect in between, other than
+            # sibling definitions of explaining locals
+            u_st = us[0]
+            while u_st is not None and not isinstance(u_st, ast.stmt):
+                u_st = getattr(u_st, "_parent", None)
             blk = _block_of(st)
-            if blk is not None:
-                blk.remove(st)
-                if not blk:
-                    blk.append(ast.copy_location(ast.Pass(), st))
-            _set_parents(fn)
-            stats["inlined_locals"] = stats.get("inlined_locals", 0) + 1
-            changed = True
-            break
+            if blk is None or u_st is None:
+                return False
+            top = u_st
+            while top is not None and not any(top is x for x in blk):
+                top = getattr(top, "_parent", None)
+            if top is None:
+                return False
+            i0 = [i for i, x in enumerate(blk) if x is st][0]
+            i1 = [i for i, x in enumerate(blk) if x is top][0]
+            if i1 < i0:
+                return False
+            for bst in blk[i0 + 1:i1]:
+                simple_def = isinstance(bst, ast.Assign) and len(bst.targets) == 1 and isinstance(bst.targets[0], ast.Name)
+                if not simple_def and any(isinstance(x, ast.Call) for x in ast.walk(bst)):
+                    return False
+    for st in defs:
+        if id(st) not in by_def and any(isinstance(x, ast.Call) for x in ast.walk(st.value)):
+            return False       # a definition nobody reads but whose value calls something: keep everything as it is
+    # all definitions are used somewhere or dead: substitute
+    for st, us in by_def.values():
+        for u in us:
+            p = u._parent
+            rep = copy.deepcopy(st.value)
+            for f_, v in ast.iter_fields(p):
+                if v is u:
+                    setattr(p, f_, rep)
+                elif isinstance(v, list):
+                    for i, x in enumerate(v):
+                        if x is u:
+                            v[i] = rep
+            rep._parent = p
+    for st in defs:
+        blk = _block_of(st)
+        if blk is not None:
+            for i, x in enumerate(blk):
+                if x is st:
+                    del blk[i]
+                    break
+            if not blk:
+                blk.append(ast.copy_location(ast.Pass(), st))
+    stats["inlined_locals"] = stats.get("inlined_locals", 0) + 1
+    return True
+
+
+def canon_mutators():
+    return {"append", "extend", "insert", "pop", "remove", "clear", "update", "add", "discard", "setdefault", "sort",
+            "reverse", "popitem"}
 
 
 def _is_local(fn, name):
